@@ -58,7 +58,10 @@ SMALL = [
 
 def enumerations(tier):
     b = 2 if tier == "thorough" else 1
-    return [("pool-level-all-schedules-<=%d-deviations-3-small-configs" % b, PC.sweep(SMALL, b, thin=3 if b == 2 else 1), b == 1)]
+    parts = [("pool-level-all-schedules-<=1-deviations-3-small-configs", PC.sweep(SMALL, 1), True)]
+    if b == 2:
+        parts.append(("pool-level-schedules-<=2-deviations-3-small-configs-second-deviation-at-every-3rd-step", PC.sweep(SMALL, 2, thin=3), False))
+    return parts
 
 
 def strategies(tier):
